@@ -24,6 +24,7 @@ import (
 	"sort"
 	"strconv"
 	"strings"
+	"sync"
 	"testing"
 	"time"
 
@@ -35,8 +36,8 @@ import (
 // ---------------------------------------------------------------------------------------------------
 // deterministic values of the published structures
 
-var c16Strings = []string{"/data", "/data/run 1", "/tmp/ü-dir", "relative/path", "C:\\data", "/a:b", "/with#hash", "x", "/data/2024-01-01", "/q'uote", "/d\"q", "host.example:4000",
-	"127.0.0.1:60001", "", "true", "null", "123", "~", "- dash", "{brace}", "a: b", " lead", "trail ", "yes", "0x1F", "1e3"}
+var c16Strings = []string{"/data", "/data/run 1", "/tmp/ü-dir", "relative/path", "C:\\data", "/a:b", "/with#hash", "x", "/data/2024-01-01", "/q'uote", "/d\"q", "10.1.2.3:4000",
+	"127.0.0.1:1", "", "true", "null", "123", "~", "- dash", "{brace}", "a: b", " lead", "trail ", "yes", "0x1F", "1e3"}
 
 type c16Rnd struct{ seed, n int }
 
@@ -102,7 +103,8 @@ func c16TS(r *c16Rnd) TriggerState {
 
 var c16Topics = []c16Topic{
 	{tag: "SIMPULSE", persist: true, make: func(r *c16Rnd) any {
-		return &SimPulseSourceConfig{Nchan: r.i(1, 64), SampleRate: r.f() + 1, Pedestal: r.f(), Amplitudes: r.floats(4), Nsamp: r.i(0, 5000)}
+		// configurations the source accepts (start-up deliberately panics on a saved simulated-source configuration it cannot apply)
+		return &SimPulseSourceConfig{Nchan: r.i(1, 64), SampleRate: []float64{10000, 1e5, 250000.5}[r.u()%3], Pedestal: r.f(), Amplitudes: r.floats(4), Nsamp: r.i(1, 5000)}
 	}, load: func() (any, error) {
 		var c SimPulseSourceConfig
 		c.SampleRate = 1000.0
@@ -110,7 +112,8 @@ var c16Topics = []c16Topic{
 		return &c, err
 	}},
 	{tag: "TRIANGLE", persist: true, make: func(r *c16Rnd) any {
-		return &TriangleSourceConfig{Nchan: r.i(1, 64), SampleRate: r.f() + 1, Min: RawType(r.i(0, 65535)), Max: RawType(r.i(0, 65535))}
+		mn := r.i(0, 64000)
+		return &TriangleSourceConfig{Nchan: r.i(1, 64), SampleRate: []float64{1000, 12345.678, 1e5}[r.u()%3], Min: RawType(mn), Max: RawType(mn + r.i(0, 1000))}
 	}, load: func() (any, error) {
 		var c TriangleSourceConfig
 		c.SampleRate = 1000.0
@@ -137,7 +140,12 @@ var c16Topics = []c16Topic{
 		return &c, err
 	}},
 	{tag: "ROACH", persist: true, make: func(r *c16Rnd) any {
-		return &RoachSourceConfig{HostPort: r.strs(3), Rates: r.floats(3), AbacoUnwrapOptions: c16Unwrap(r)}
+		hp := r.strs(3)
+		rates := make([]float64, len(hp)) // one rate per address, as Configure demands
+		for k := range rates {
+			rates[k] = r.f() + 1
+		}
+		return &RoachSourceConfig{HostPort: hp, Rates: rates, AbacoUnwrapOptions: c16Unwrap(r)}
 	}, load: func() (any, error) {
 		var c RoachSourceConfig
 		err := viper.UnmarshalKey("roach", &c)
@@ -586,6 +594,9 @@ func c16Run(c c16Case) (v vVerdict) {
 			if msg := c16Compare(latest); msg != "" {
 				return vFailf("persist-differs", "%s", msg)
 			}
+			if msg := c16StartupCompare(home, port+200, latest); msg != "" {
+				return vFailf("startup-differs", "%s", msg)
+			}
 			v.Classes = append(v.Classes, "persistence-checked")
 		}
 	} else {
@@ -650,6 +661,9 @@ func c16ChildMain() {
 		Home string       `json:"home"`
 		Case c16CrashCase `json:"case"`
 		Var  int          `json:"variant"`
+		// start-up mode
+		Startup string `json:"startup"`
+		Port    int    `json:"port"`
 	}
 	b, err := os.ReadFile(os.Getenv("VERIF_C16_CHILD"))
 	if err != nil || json.Unmarshal(b, &spec) != nil {
@@ -658,9 +672,138 @@ func c16ChildMain() {
 	if err := c16SetupViper(spec.Home); err != nil {
 		os.Exit(4)
 	}
+	if spec.Startup != "" {
+		// the real start-up: RunRPCServer restores the saved configuration and announces it to clients
+		got := map[string]json.RawMessage{}
+		var mu sync.Mutex
+		go func() {
+			for u := range clientMessageChan {
+				if b, err := json.Marshal(u.state); err == nil {
+					mu.Lock()
+					got[u.tag] = b
+					mu.Unlock()
+				}
+			}
+		}()
+		RunRPCServer(spec.Port, false)
+		time.Sleep(200 * time.Millisecond)
+		mu.Lock()
+		b, _ := json.Marshal(got)
+		mu.Unlock()
+		os.WriteFile(spec.Startup, b, 0o644)
+		os.Exit(0)
+	}
 	m, _ := c16Messages(spec.Case, spec.Var)
 	saveState(m)
 	os.Exit(0)
+}
+
+// c16StartupCompare runs the real start-up in a child process on home and compares what it restores and announces
+// (source configurations, record lengths, base path) with the last published values.
+func c16StartupCompare(home string, port int, want map[int]any) string {
+	self, err := os.Executable()
+	if err != nil {
+		return ""
+	}
+	dir := filepath.Dir(home)
+	spec := filepath.Join(dir, fmt.Sprintf("startup_spec_%d.json", os.Getpid()))
+	outf := filepath.Join(dir, fmt.Sprintf("startup_out_%d.json", os.Getpid()))
+	os.Remove(outf)
+	b, _ := json.Marshal(map[string]any{"home": home, "startup": outf, "port": port})
+	os.WriteFile(spec, b, 0o644)
+	defer os.Remove(spec)
+	defer os.Remove(outf)
+	cmd := exec.Command(self, "-test.run", "^TestVerif_C16Child$")
+	cmd.Env = append(os.Environ(), "VERIF_C16_CHILD="+spec, "HOME="+home, "VERIF_REPLAY=", "VERIF_OUT=")
+	out, err := cmd.CombinedOutput()
+	ob, rerr := os.ReadFile(outf)
+	if err != nil || rerr != nil {
+		if strings.Contains(string(out), "panic:") {
+			return "the next start-up crashed on the saved configuration: " + vTrim(string(out[strings.Index(string(out), "panic:"):]), 600)
+		}
+		return "" // could not run the child: not judged
+	}
+	var got map[string]json.RawMessage
+	if json.Unmarshal(ob, &got) != nil {
+		return ""
+	}
+	canonRaw := func(r json.RawMessage) any {
+		var x any
+		json.Unmarshal(r, &x)
+		return x
+	}
+	sortedSet := func(x any) any {
+		l, _ := x.([]any)
+		seen := map[string]bool{}
+		var out []string
+		for _, e := range l {
+			k := fmt.Sprint(e)
+			if !seen[k] {
+				seen[k] = true
+				out = append(out, k)
+			}
+		}
+		sort.Strings(out)
+		return out
+	}
+	for ti, w := range want {
+		tag := c16Topics[ti].tag
+		g, ok := got[tag]
+		var wj any
+		wb, _ := json.Marshal(w)
+		json.Unmarshal(wb, &wj)
+		gj := canonRaw(g)
+		switch tag {
+		case "SIMPULSE", "TRIANGLE", "ROACH":
+			if !ok {
+				return fmt.Sprintf("the next start-up did not restore/announce %s", tag)
+			}
+			if c16Canon(gj) != c16Canon(wj) {
+				return fmt.Sprintf("the next start-up restored %s as %s, last published %s", tag, c16Canon(gj), c16Canon(wj))
+			}
+		case "LANCERO", "ABACO":
+			if !ok {
+				return fmt.Sprintf("the next start-up did not restore/announce %s", tag)
+			}
+			gm, _ := gj.(map[string]any)
+			wm, _ := wj.(map[string]any)
+			for k, wv := range wm {
+				if k == "DastardOutput" || k == "AvailableCards" {
+					continue // outputs of Configure, not configuration
+				}
+				gv := gm[k]
+				if k == "ActiveCards" || k == "HostPortUDP" {
+					if tag == "ABACO" { // Configure sorts these and removes duplicates
+						gv, wv = sortedSet(gv), sortedSet(wv)
+					}
+				}
+				if c16Canon(gv) != c16Canon(wv) {
+					return fmt.Sprintf("the next start-up restored %s.%s as %s, last published %s", tag, k, c16Canon(gv), c16Canon(wv))
+				}
+			}
+		case "STATUS":
+			if !ok {
+				continue
+			}
+			gm, _ := gj.(map[string]any)
+			wm, _ := wj.(map[string]any)
+			for _, k := range []string{"Npresamp", "Nsamples"} {
+				if c16Canon(gm[k]) != c16Canon(wm[k]) {
+					return fmt.Sprintf("the next start-up restored the record lengths (%s) as %s, last published %s", k, c16Canon(gm[k]), c16Canon(wm[k]))
+				}
+			}
+		case "WRITING":
+			if !ok {
+				continue
+			}
+			gm, _ := gj.(map[string]any)
+			wm, _ := wj.(map[string]any)
+			if c16Canon(gm["BasePath"]) != c16Canon(wm["BasePath"]) {
+				return fmt.Sprintf("the next start-up restored the base path as %s, last published %s", c16Canon(gm["BasePath"]), c16Canon(wm["BasePath"]))
+			}
+		}
+	}
+	return ""
 }
 
 var c16CallRe = regexp.MustCompile(`^\d+\s+(\w+)\((.*)$`)
